@@ -376,11 +376,11 @@ def track_rules(fb, R, M):
                 fid = field_of_arg.get(js[0]) if len(js) == 1 else None
             if ncallers == 0:
                 R.broken('%s has no caller in the fact base' % fn.q)
-            else:
+            elif keyf is not None:      # unknown search key: already reported as analysis-broken by S1
                 R.check(fid is not None and fid == keyf, 'T2-element-field-roles', fn.q + '#member-ref-stored-in-the-search-key-field', fn.loc(m['id']),
                         'the member id passed by the manager lands in %s but lookups search by %s' % (fid, keyf))
     # search value of find()
-    for se in M.proto.searches:
+    for se in (M.proto.searches if keyf is not None else []):
         fn = se.fn
         args = [a for a in se.node.get('args', []) if a is not None]
         ok = False
